@@ -65,7 +65,8 @@ def main(argv=None):
         from . import bind
         if not getattr(mod, "NO_BIND", False):
             bind.bind()
-        res = mod.run_shard(json.loads(a.shard_spec), a.tier, a.seed)
+        spec = json.loads(a.shard_spec)
+        res = mod.run_shard(spec, a.tier, a.seed + 100003 * int(spec.get("_rep", 0)) if isinstance(spec, dict) else a.seed)
         with open(a.out, "w") as f:
             json.dump(res.to_json(), f, default=str)
         return 0
@@ -90,6 +91,11 @@ def main(argv=None):
 
     t0 = time.time()
     specs = mod.plan(a.tier, a.seed)
+    reps = getattr(mod, "REPS", {}).get(a.tier, 1)
+    if reps > 1:
+        # value-sampling checks whose lattice is exhaustive in both tiers: the thorough tier repeats the whole lattice
+        # with fresh value draws (the shard derives its generators from seed + 100003 * repetition)
+        specs = [dict(s, _rep=k) for k in range(reps) for s in specs]
     timeout = getattr(mod, "SHARD_TIMEOUT", {"quick": 600, "thorough": 3600})[a.tier]
     total = Result()
     work = tempfile.mkdtemp(prefix=f"vmon-{prop}-")
@@ -98,7 +104,7 @@ def main(argv=None):
             from . import bind
             bind.bind()
             for s in specs:
-                total.merge(mod.run_shard(s, a.tier, a.seed))
+                total.merge(mod.run_shard(s, a.tier, a.seed + 100003 * int(s.get("_rep", 0)) if isinstance(s, dict) else a.seed))
         else:
             with cf.ThreadPoolExecutor(max_workers=a.jobs) as ex:
                 futs = {}
